@@ -157,9 +157,16 @@ def single_op_fn(pp, op):
             'Retr': lambda X, a: X.Retr(a), 'matrix': lambda X: X.matrix(), 'Jinvp': lambda X, a: X.Jinvp(a)}[op]
 
 
+SERIES_OPS = ('Exp', 'Log', 'Retr', 'Jinvp')
+
+
 def generic_inputs(pp, torch, rng, g, op, point='generic'):
     dt = torch.float64
+    small = (g == 'Sim3' and op in SERIES_OPS)       # truncated sim3 series: stay where |ad xi|^6 is small
     def G():
+        if small and point == 'generic':
+            a = [0.2 * rng.uniform(-1, 1) for _ in range(ADIM[g])]
+            return pp.LieTensor(torch.tensor(a, dtype=dt), ltype=alg_type(pp, g)).Exp()
         if point == 'identity':
             return pp.LieTensor(getattr(pp, 'identity_' + g)().to(dt).tensor(), ltype=getattr(pp, g + '_type'))
         x = generic_elt(rng, g, torch, dt)
@@ -170,7 +177,7 @@ def generic_inputs(pp, torch, rng, g, op, point='generic'):
     def A(scale=0.7):
         if point == 'identity':
             return pp.LieTensor(torch.zeros(ADIM[g], dtype=dt), ltype=alg_type(pp, g))
-        s = 1e-9 if point == 'tiny' else scale
+        s = 1e-9 if point == 'tiny' else (0.2 if small else scale)
         return pp.LieTensor(torch.tensor([rng.uniform(-1, 1) * s for _ in range(ADIM[g])], dtype=dt), ltype=alg_type(pp, g))
     P = lambda n: torch.tensor([rng.uniform(-2, 2) for _ in range(n)], dtype=dt)
     return {'Mul': lambda: [G(), G()], 'Inv': lambda: [G()], 'Act': lambda: [G(), P(3)], 'Act4': lambda: [G(), P(4)],
@@ -184,9 +191,20 @@ def out_cot_dim(g, op):
 
 
 def fd_single(pp, torch, rng, g, op, point):
+    if op == 'Jinvp' and point == 'identity':
+        return None          # the property speaks about Jinvp away from the zero rotation only
     ins = generic_inputs(pp, torch, rng, g, op, point)
     cot = torch.tensor([rng.uniform(-1, 1) for _ in range(out_cot_dim(g, op))], dtype=torch.float64)
-    why = compare_fd(pp, torch, single_op_fn(pp, op), ins, cot)
+    tol = 2e-5
+    if g == 'Sim3' and op in SERIES_OPS:
+        # documented truncation of the sim3 series: error <= const * |ad xi|^6
+        xi = 0.0
+        for x in ins:
+            if isinstance(x, pp.LieTensor):
+                v = x.tensor() if x.ltype.on_manifold else x.Log().tensor()
+                xi = max(xi, float(v.norm()))
+        tol = 2e-5 + 4.0 * xi ** 6
+    why = compare_fd(pp, torch, single_op_fn(pp, op), ins, cot, tol=tol)
     if why:
         return dict(kind='fd-single', g=g, op=op, point=point, inputs=[[float(v) for v in (x.tensor() if isinstance(x, pp.LieTensor) else x).tolist()] for x in ins],
                     cot=[float(v) for v in cot.tolist()], what='%s %s at a %s point: %s' % (g, op, point, why))
@@ -332,6 +350,10 @@ def composite(ctx, pp, torch):
         for _ in range(depth):
             ops.append(rng.choice(['Mul', 'Inv', 'ExpLog', 'Retr', 'MulExp', 'AdjRetr', 'AdjTRetr']))
         final = rng.choice(['Act', 'Log', 'matrix', 'Act4'])
+        if g == 'Sim3':
+            # trees through the truncated sim3 series are covered per Function (with the documented truncation bound)
+            ops = [o if o in ('Mul', 'Inv') else rng.choice(['Mul', 'Inv']) for o in ops]
+            final = rng.choice(['Act', 'matrix', 'Act4'])
         used = {(g, {'AdjRetr': 'Adj', 'AdjTRetr': 'AdjT'}.get(o, o)) for o in ops}
         if used & known_ops:
             continue
